@@ -12,6 +12,7 @@ package main
 import (
 	"fmt"
 	"math/big"
+	"os"
 	"sort"
 	"strings"
 	"sync"
@@ -40,6 +41,11 @@ type E2EPeer struct {
 	Kind  int    `json:"kind"`
 	Param int    `json:"param,omitempty"` // truncating: cap; disconnecting: leaves at its n-th request
 	Seed  uint64 `json:"seed,omitempty"`
+	// message-level faults on this (honest or truncating) peer's replies, in percent of its
+	// requests: the reply is duplicated, delayed past the request's expiry, or held back
+	// until after the reply to the peer's next request (reordered).  The peer still
+	// answers every request it receives, truthfully.
+	Faults int `json:"faults,omitempty"`
 }
 
 type E2EScenario struct {
@@ -98,6 +104,7 @@ type e2eEnv struct {
 	dropped map[string]bool // dropPeer callback fired (request expired with <= 2 items)
 	left    map[string]bool // the peer disconnected by itself
 	reqs    map[string]int
+	faults  map[string]int
 }
 
 type e2ePeer struct {
@@ -107,6 +114,8 @@ type e2ePeer struct {
 	mu   sync.Mutex
 	rng  *vf.Rng
 	n    int
+	slow int                    // delayed / held replies so far (bounded: each costs an expiry)
+	held [][]*types.Transaction // a reply held back until the next one has been sent
 }
 
 func (p *e2ePeer) Head() (common.Hash, *big.Int)                                { return common.Hash{}, new(big.Int) }
@@ -152,7 +161,52 @@ func (p *e2ePeer) RequestBodies(hashes []common.Hash) error {
 	case pkEmpty:
 		out = nil
 	}
+	if p.spec.Faults > 0 && r2%100 < p.spec.Faults {
+		p.mu.Lock()
+		kind := r1 % 3
+		if kind != 0 && (len(hashes) <= 2 || p.slow >= 3 || p.held != nil) {
+			kind = 0 // a request of <= 2 items that expires gets its peer dropped: only duplicate those
+		}
+		if kind != 0 {
+			p.slow++
+		}
+		if kind == 2 {
+			p.held = out
+		}
+		p.mu.Unlock()
+		p.env.mu.Lock()
+		p.env.faults[[]string{"duplicated", "delayed_past_expiry", "reordered"}[kind]]++
+		p.env.mu.Unlock()
+		switch kind {
+		case 0:
+			p.env.d.DeliverBodies(p.id, out)
+			time.Sleep(time.Duration(1+r1%4) * time.Millisecond)
+			p.env.d.DeliverBodies(p.id, out)
+		case 1:
+			time.Sleep(400 * time.Millisecond)
+			p.env.d.DeliverBodies(p.id, out)
+		case 2: // sent after the answer to the next request - or, if no further request comes, late anyway
+			go func() {
+				time.Sleep(500 * time.Millisecond)
+				p.mu.Lock()
+				late := p.held
+				p.held = nil
+				p.mu.Unlock()
+				if late != nil {
+					p.env.d.DeliverBodies(p.id, late)
+				}
+			}()
+		}
+		return nil
+	}
 	p.env.d.DeliverBodies(p.id, out)
+	p.mu.Lock()
+	late := p.held
+	p.held = nil
+	p.mu.Unlock()
+	if late != nil {
+		p.env.d.DeliverBodies(p.id, late)
+	}
 	return nil
 }
 
@@ -180,6 +234,7 @@ type e2eResult struct {
 	class       string
 	inserted    int
 	drops       int
+	faults      map[string]int
 	expiredReqs int
 }
 
@@ -189,7 +244,7 @@ func runE2E(sc *E2EScenario) e2eResult {
 	n := len(sc.Bodies)
 	// headers
 	headers := make([]*types.Header, n)
-	env := &e2eEnv{bodies: map[common.Hash][]*types.Transaction{}, dropped: map[string]bool{}, left: map[string]bool{}, reqs: map[string]int{}}
+	env := &e2eEnv{bodies: map[common.Hash][]*types.Transaction{}, dropped: map[string]bool{}, left: map[string]bool{}, reqs: map[string]int{}, faults: map[string]int{}}
 	parent := common.BytesToHash([]byte("c18-e2e-origin"))
 	for i := 0; i < n; i++ {
 		var txs types.Transactions
@@ -254,12 +309,23 @@ func runE2E(sc *E2EScenario) e2eResult {
 		if mk != pkHonest && mk != pkTruncating {
 			limit = 1500 * time.Millisecond // nothing is expected of such a run but safety
 		}
+		if sc.Peers[sc.Master].Faults > 0 {
+			limit = 6 * time.Second // watchdog of the message-fault family
+		}
 		if cutMS > 0 {
 			limit = time.Duration(cutMS) * time.Millisecond
 		}
 		select {
 		case err = <-fetchErr:
 		case <-time.After(limit):
+			if os.Getenv("C18_E2E_DEBUG") != "" {
+				dmp := q.VerifC18Dump()
+				busy, reg := d.VerifC18BodyBusy(master)
+				env.mu.Lock()
+				fmt.Printf("DEBUG stuck: queue=%d pend=%d done=%d offset=%d processable=%d masterBusy=%v registered=%v reqs=%v faults=%v dropped=%v\n",
+					len(dmp.TaskQueue), len(dmp.PendPool), len(dmp.DonePool), dmp.Offset, dmp.Processable, busy, reg, env.reqs, env.faults, env.dropped)
+				env.mu.Unlock()
+			}
 			timedOut = true
 			d.Cancel()
 			err = <-fetchErr
@@ -297,6 +363,10 @@ func runE2E(sc *E2EScenario) e2eResult {
 		env.mu.Lock()
 		masterGone := env.dropped[master] || env.left[master]
 		res.drops = len(env.dropped)
+		res.faults = map[string]int{}
+		for k, v := range env.faults {
+			res.faults[k] = v
+		}
 		env.mu.Unlock()
 		switch {
 		case mk != pkHonest && mk != pkTruncating:
@@ -306,8 +376,12 @@ func runE2E(sc *E2EScenario) e2eResult {
 		case err == nil && !timedOut && len(ins) == n-from:
 			return "e2e_completed"
 		}
-		hit(fmt.Sprintf("%sdownload does not complete although the honest %s master peer stayed connected and answered every request: %d of %d blocks imported, fetchBodies returned %s",
-			what, pkNames[mk], len(ins), n-from, errName(err, timedOut)))
+		faulty := ""
+		if sc.Peers[sc.Master].Faults > 0 {
+			faulty = fmt.Sprintf(" (some of its replies were duplicated / delayed past expiry / reordered: %v)", res.faults)
+		}
+		hit(fmt.Sprintf("%sdownload does not complete although the honest %s master peer stayed connected and answered every request it received%s: %d of %d blocks imported, fetchBodies returned %s",
+			what, pkNames[mk], faulty, len(ins), n-from, errName(err, timedOut)))
 		return "e2e_FAILED_" + errName(err, timedOut)
 	}
 	err, timedOut, ins := runCycle(0, sc.CutMS)
@@ -408,6 +482,18 @@ func genE2E(rng *vf.Rng) *E2EScenario {
 			}
 		}
 	}
+	if rng.Chance(30) { // message-fault family: ONE honest peer whose replies get duplicated / delayed / reordered; the others stall or are absent
+		sc.Peers = []E2EPeer{{Kind: []int{pkHonest, pkHonest, pkTruncating}[rng.Intn(3)], Param: 2 + rng.Intn(6), Seed: rng.U64(), Faults: 15 + rng.Intn(50)}}
+		for k := rng.Intn(3); k > 0; k-- {
+			sc.Peers = append(sc.Peers, E2EPeer{Kind: pkStalling, Seed: rng.U64()})
+		}
+		sc.Master = 0
+		if len(sc.Bodies) < 30 {
+			for len(sc.Bodies) < 30+rng.Intn(60) {
+				sc.Bodies = append(sc.Bodies, []int{rng.Intn(20)})
+			}
+		}
+	}
 	if rng.Chance(35) { // two sync cycles, the second from below what the first handed out
 		sc.SecondBack = 1 + rng.Intn(6)
 		if rng.Chance(50) {
@@ -457,6 +543,12 @@ func e2eCampaign(seed uint64, count, workers int, res *vf.Result) {
 			kinds[pkNames[p.Kind]]++
 		}
 		res.Distribution["e2e_peers_dropped_after_expiry"] += r.drops
+		for k, v := range r.faults {
+			res.Distribution["e2e_honest_reply_"+k] += v
+		}
+		if scs[i].Peers[scs[i].Master].Faults > 0 {
+			res.Distribution["e2e_runs_with_message_faults_on_the_single_honest_peer"]++
+		}
 		for _, w := range r.hits {
 			if len(res.OracleHits) < 6 {
 				res.OracleHits = append(res.OracleHits, e2eHit{w, scs[i]})
